@@ -26,6 +26,7 @@ type c15Cell struct {
 	LateKey bool // keyring configured empty at creation, first key installed afterwards
 	Outer   bool `json:",omitempty"` // SkipInboundLabelCheck: an outer layer (the harness) strips inbound label headers
 	ShortWr int  `json:",omitempty"` // > 0: every stream Write accepts at most this many bytes and reports no error
+	Plain   bool `json:",omitempty"` // the application's transport is not node-aware (the library's shim carries the traffic)
 	Secret  bool `json:",omitempty"` // the nodes are created with Keyring AND SecretKey; the application rotates through its own ring
 }
 
@@ -39,6 +40,9 @@ func (c c15Cell) String() string {
 	}
 	if c.Secret {
 		x += " keyring+secretkey"
+	}
+	if c.Plain {
+		x += " plain-transport"
 	}
 	return fmt.Sprintf("label=%q comp=%v proto=%d peerpmax=%d key=%d latekey=%v%s", c.Label, c.Comp, c.Proto, c.PMax, c.KeyLen, c.LateKey, x)
 }
@@ -115,7 +119,7 @@ func runC15Cell(t *testing.T, cell c15Cell, rep *Report) {
 	res := inBubble(t, func(b *bubble) {
 		installDetRand()
 		mon := &c15Mon{rep: rep, cell: cell, prim: map[string][]byte{}, seenS: map[string]int{}, sites: map[string]int{}}
-		l := lat{Enc: "off", Comp: cell.Comp, Label: cell.Label, PeerPMax: cell.PMax}
+		l := lat{Enc: "off", Comp: cell.Comp, Label: cell.Label, PeerPMax: cell.PMax, Plain: cell.Plain}
 		rings := map[string]*ml.Keyring{}
 		p := newPairOpt(b, l, false, func(name string, c *ml.Config) {
 			c.ProtocolVersion = cell.Proto
@@ -268,9 +272,19 @@ func runC15Cell(t *testing.T, cell c15Cell, rep *Report) {
 		must(s.M.SendToAddress(ml.Address{Addr: rAddr, Name: r.Name}, []byte("CANARY-SEND-TO-ADDRESS")))
 		settle()
 		sweep("user best-effort")
+		must(s.M.SendToAddress(ml.Address{Addr: rAddr}, []byte("CANARY-SEND-TO-ADDRESS-NAMELESS")))
+		must(s.M.SendTo(r.Addr, []byte("CANARY-SEND-TO")))
+		must(s.M.SendToUDP(p.nodeOf(r), []byte("CANARY-SEND-TO-UDP")))
+		// a destination the node has never heard of
+		must(s.M.SendToAddress(ml.Address{Addr: "10.0.0.250:7946"}, []byte("CANARY-SEND-TO-STRANGER")))
+		settle()
+		sweep("user deprecated/nameless")
 		must(s.M.SendReliable(p.nodeOf(r), []byte("CANARY-RELIABLE")))
 		settle()
 		judgeStreams("user reliable", s)
+		must(s.M.SendToTCP(p.nodeOf(r), []byte("CANARY-SEND-TO-TCP")))
+		settle()
+		judgeStreams("user reliable (SendToTCP)", s)
 		// ---- TCP fallback ping + its ack
 		_, _ = s.M.VSendPingAndWaitForAck(rAddr, r.Name, 31337, time.Now().Add(time.Second))
 		settle()
@@ -343,18 +357,18 @@ func runC15Cell(t *testing.T, cell c15Cell, rep *Report) {
 func TestC15(t *testing.T) {
 	rep := newReport()
 	defer rep.Write(t)
-	rep.Rule = "per configuration cell (label none/5 B x compression x protocol 1,2,5 x peer checksum support x key installed at creation / afterwards; thorough: key sizes, 255-byte label) a scripted history forces every send site: UpdateNode gossip, join push/pull request+reply, anti-entropy push/pull, gossip compound and single, ping, ack, indirect ping, relayed ping, nack, relayed ack, ping+suspect compound, SendBestEffort, SendToAddress, SendReliable, TCP fallback ping+ack, error reply to an undecodable stream, sends after UseKey during rotation, Leave; every packet and every stream byte is checked by the monitor; distinct = (cell, send site) pairs exercised"
+	rep.Rule = "per configuration cell (label none/5 B x compression x protocol 1,2,5 x peer checksum support x key installed at creation / afterwards; thorough: key sizes, 255-byte label) a scripted history forces every send site: UpdateNode gossip, join push/pull request+reply, anti-entropy push/pull, gossip compound and single, ping, ack, indirect ping, relayed ping, nack, relayed ack, ping+suspect compound, SendBestEffort, SendToAddress (named, nameless, to a stranger), SendTo, SendToUDP, SendReliable, SendToTCP, TCP fallback ping+ack, error reply to an undecodable stream, sends after UseKey during rotation, Leave; every packet and every stream byte is checked by the monitor; distinct = (cell, send site) pairs exercised"
 	rep.Assumptions = []string{"'every code path' is shown for the send sites exercised by these histories (listed in outcomes), not by a structural proof", "keyring configured, GossipVerifyOutgoing on"}
 	var cells []c15Cell
 	for _, lb := range []string{"", "lbl55"} {
 		for _, comp := range []bool{false, true} {
 			for _, proto := range []uint8{1, 2, 5} {
 				for _, pm := range []uint8{4, 5} {
-					cells = append(cells, c15Cell{lb, comp, proto, pm, 16, false, false, 0, false})
+					cells = append(cells, c15Cell{Label: lb, Comp: comp, Proto: proto, PMax: pm, KeyLen: 16})
 				}
 			}
 		}
-		cells = append(cells, c15Cell{lb, true, 2, 5, 32, true, false, 0, false})
+		cells = append(cells, c15Cell{Label: lb, Comp: true, Proto: 2, PMax: 5, KeyLen: 32, LateKey: true})
 	}
 	// a labelled node behind an outer layer that strips inbound label headers (SkipInboundLabelCheck)
 	for _, proto := range []uint8{1, 5} {
@@ -363,6 +377,12 @@ func TestC15(t *testing.T) {
 	// created with Keyring and SecretKey: the ring the application keeps (and rotates) is the one that counts
 	for _, lb := range []string{"", "lbl55"} {
 		cells = append(cells, c15Cell{Label: lb, Comp: true, Proto: 5, PMax: 5, KeyLen: 16, Secret: true})
+	}
+	// an application transport that is not node-aware
+	for _, lb := range []string{"", "lbl55"} {
+		for _, proto := range []uint8{1, 5} {
+			cells = append(cells, c15Cell{Label: lb, Comp: proto == 1, Proto: proto, PMax: 5, KeyLen: 16, Plain: true})
+		}
 	}
 	// streams whose Write takes only part of the buffer without reporting an error
 	for _, lb := range []string{"", "lbl55"} {
@@ -373,7 +393,7 @@ func TestC15(t *testing.T) {
 	if thorough() {
 		for _, kl := range []int{24, 32} {
 			for _, proto := range []uint8{1, 3, 4} {
-				cells = append(cells, c15Cell{strings.Repeat("w", 255), true, proto, 5, kl, false, false, 0, false}, c15Cell{"x", false, proto, 4, kl, true, false, 0, false})
+				cells = append(cells, c15Cell{Label: strings.Repeat("w", 255), Comp: true, Proto: proto, PMax: 5, KeyLen: kl}, c15Cell{Label: "x", Proto: proto, PMax: 4, KeyLen: kl, LateKey: true})
 			}
 		}
 	}
